@@ -105,10 +105,16 @@ func NewProcess(opts ...ProcOpts) *Process {
 
 func (p *Process) run() int {
 	verifYieldP(p, "run.entry")
-	if p.isState(types.ProcessStateTerminating) {
+	if p.procRunCtx.Err() != nil {
 		// stopped before it was started: there is nothing to terminate, do not leave
-		// the process in the transient state for ever
-		p.setState(types.ProcessStateCompleted)
+		// the process in the transient state for ever. The decision is made on this
+		// instance's own run context, and the state - which is shared with the next
+		// instance of the process (restart of a process that was still waiting for its
+		// dependencies) - is only moved on from Pending or Terminating. The stopper may
+		// or may not have got as far as ending this instance: do it here as well
+		p.releaseOnEnd()
+		p.compareAndSetState(types.ProcessStateCompleted, types.ProcessStatePending, types.ProcessStateTerminating)
+		p.markDone()
 		return 0
 	}
 
